@@ -26,6 +26,10 @@
 (* and the loader invariants.                                                    *)
 EXTENDS FuncFileOps
 
+CONSTANT TrimAll   \* FALSE: the code (TrimSuffix: one backslash is the continuation mark).  TRUE: negative control
+                   \* (TrimRight: every trailing backslash goes) - must be refuted against Meaning
+Unmark(line) == IF TrimAll THEN DropAllBsl(line) ELSE DropBsl(line)
+
 \* ---------------------------------------------------------------- the loader as a state machine
 \* pc: "scan" (inner loop: the next scanner.Scan()) | "emit" (a phrase is complete) | "done"
 VARIABLES file,      \* the physical lines
@@ -45,7 +49,7 @@ Scan ==
   /\ pos' = pos + 1 /\ linenum' = linenum + 1
   /\ LET line == StripLine(file[pos + 1]) IN
      IF line = <<>> THEN UNCHANGED <<sb, pc>>                                    \* continue
-     ELSE IF IsCont(line) THEN sb' = sb \o DropBsl(line) /\ UNCHANGED pc         \* multiline
+     ELSE IF IsCont(line) THEN sb' = sb \o Unmark(line) /\ UNCHANGED pc          \* multiline
      ELSE sb' = sb \o line /\ pc' = "emit"                                       \* break
   /\ UNCHANGED <<file, defs, skipped>>
 \* scanner.Scan() returns false: the inner loop ends
